@@ -193,4 +193,43 @@ theorem as_ubig_positive {r r' : Rep} (h : Rep.asUbig r = some r') : r' = r ∧ 
   · cases h
   · rename_i hn; injection h with h; subst h; exact ⟨rfl, by simpa using hn⟩
 
+-- ------------------------------------------------------------------ zeroize (feature `zeroize`)
+
+/-- buffer.rs:438 / zeroize.rs:12 — the full-capacity slice is exactly the allocation; afterwards the
+    buffer is empty with the same allocation -/
+theorem zeroizeBuf_sat {b : Buf} (hL : L b.id = some b.cap) (hw : b.Wf mx) :
+    Sat L n (zeroizeBuf b) (BPost mx L n b (fun b' => b'.id = b.id ∧ b'.cap = b.cap ∧ b'.ws = [])) := by
+  unfold zeroizeBuf asFullSliceZero
+  apply Sat.bind
+  apply Sat.emits (L1 := L) (replay_wr hL _ _ (by omega)) (isAlloc_wr _ _ _)
+  have hw' : Buf.Wf mx { b with ws := List.replicate b.len 0 } := by
+    refine ⟨?_, hw.2.1, hw.2.2⟩
+    show (List.replicate b.len 0).length ≤ b.cap
+    simp only [List.length_replicate]; exact hw.1
+  apply Sat.conseq (truncate_sat (b := { b with ws := List.replicate b.len 0 }) hL hw')
+  intro b' L' n' _ ⟨hm, hwf, hid, hcap, hws⟩
+  exact ⟨hm, hwf, hid, hcap, by rw [hws]; simp⟩
+
+/-- repr.rs:253 / zeroize.rs:19 — the full slice of a heap value is exactly its allocation
+    (`|capacity|` words); afterwards the value is the canonical zero and the buffer is freed once -/
+theorem repZeroize_sat {r : Rep} (hc : r.Canon mx) (hL : r.Live L) :
+    Sat L n (Rep.zeroize mx r) (fun r' L' _ =>
+      Moves L L' n r.own none ∧ r' = Rep.fromWord 0) := by
+  unfold Rep.zeroize
+  apply Sat.bind
+  apply Sat.conseq (Q := fun _ L1 n1 => L1 = L ∧ n1 = n)
+  · cases r with
+    | inline lo hi code neg => exact Sat.pure ⟨rfl, rfl⟩
+    | heap id cap ws neg =>
+      unfold Rep.fullSliceZero
+      exact Sat.emits (L1 := L) (replay_wr (hL id cap rfl) _ _ (by omega)) (isAlloc_wr _ _ _) ⟨rfl, rfl⟩
+  intro _ L1 n1 _ ⟨hL1, hn1⟩
+  subst L1 n1
+  show Sat L n (Rep.cloneFrom mx r (Rep.inline 0 0 1 false)) _
+  unfold Rep.cloneFrom
+  apply Sat.bind
+  apply Sat.conseq (releaseOld_sat hL)
+  intro _ L1 n1 _ ⟨hm, _⟩
+  exact Sat.pure ⟨hm, rfl⟩
+
 end Dashu.Model.Mem
